@@ -1,4 +1,4 @@
-import Proofs.C15.Sound
+import Proofs.C15.SoundAll
 import Proofs.C15.OpsCount
 import Proofs.C15.Size
 /-!
@@ -21,29 +21,6 @@ theorem hasCms_cons (o : Op) (os : List Op) : hasCms (o :: os) = (o.isCms || has
   simp [hasCms]
 theorem hasCms_nil : hasCms [] = false := rfl
 
-/-- no expression of the covered set has an OP_CHECKMULTISIG. -/
-theorem hasCms_opsOf (ctx : Ctx) (h160 : Bytes → Bytes) :
-    ∀ (n : Ms) (v : Bool), inS1 n = true → hasCms (opsOf ctx h160 v n) = false
-  | .f0, _, _ | .f1, _, _ | .pk_k _, _, _ | .pk_h _, _, _ | .older _, _, _ | .after _, _, _ => by
-    simp [opsOf, hasCms_cons, hasCms_nil, Op.isCms]
-  | .hash _ _, v, _ => by cases v <;> simp [opsOf, hasCms_cons, hasCms_nil, Op.isCms]
-  | .wrap w x, v, hin => by
-    simp only [inS1, Bool.and_eq_true] at hin
-    have H := fun b => hasCms_opsOf ctx h160 x b hin.2
-    cases w <;> cases v <;> simp [opsOf, hasCms_append, hasCms_cons, hasCms_nil, Op.isCms, H] <;>
-      (split <;> simp [hasCms_cons, hasCms_nil, Op.isCms])
-  | .bin b x y, v, hin => by
-    simp only [inS1, Bool.and_eq_true] at hin
-    have Hx := fun b => hasCms_opsOf ctx h160 x b hin.1.2
-    have Hy := fun b => hasCms_opsOf ctx h160 y b hin.2
-    cases b <;> simp [opsOf, hasCms_append, hasCms_cons, hasCms_nil, Op.isCms, Hx, Hy]
-  | .andor x y z, _, hin => by
-    simp only [inS1, Bool.and_eq_true] at hin
-    simp [opsOf, hasCms_append, hasCms_cons, hasCms_nil, Op.isCms,
-      hasCms_opsOf ctx h160 x false hin.1.1,
-      hasCms_opsOf ctx h160 y false hin.1.2, hasCms_opsOf ctx h160 z false hin.2]
-  | .multi _ _, _, h | .multi_a _ _, _, h | .thresh _ _ _, _, h => by simp [inS1] at h
-
 /-- a run without OP_CHECKMULTISIG charges nothing beyond the static count. -/
 theorem execCharge_noCms (E : EvalEnv) : ∀ (ops : List Op) (s : St), hasCms ops = false →
     execCharge E ops s = 0
@@ -55,11 +32,172 @@ theorem execCharge_noCms (E : EvalEnv) : ∀ (ops : List Op) (s : St), hasCms op
     | none => rfl
     | some s' => exact execCharge_noCms E os s' h.2
 
-theorem engineLimits_of_withinLimits (ctx : Ctx) (h160 : Bytes → Bytes)
-    (hh : ∀ b, (h160 b).length = 20) (n : Ms) (hin : inS1 n = true) (hshape : shaped ctx n = true)
-    (hlim : withinLimits ctx n = true) (hops : (maxOps ctx n).isSome = true) (s : List Bytes)
-    (h520 : ∀ e ∈ s, e.length ≤ 520) (h1000 : s.length ≤ MAX_STACK_SIZE) :
-    withinEngineLimits ctx (opsOf ctx h160 false n) s 0 = true := by
+theorem execCharge_append (E : EvalEnv) : ∀ (a b : List Op) (s : St),
+    execCharge E (a ++ b) s = execCharge E a s +
+      (match exec E a s with
+       | some s' => execCharge E b s'
+       | none => 0)
+  | [], b, s => by simp [execCharge, exec]
+  | o :: os, b, s => by
+    simp only [List.cons_append, execCharge, exec]
+    cases step E o s with
+    | none => simp
+    | some s' =>
+      simp only [Option.bind_some]
+      rw [execCharge_append E os b s']
+      omega
+
+/-- whatever the state, the run charges at most `m` keys. -/
+def ChargeLe (E : EvalEnv) (ops : List Op) (m : Nat) : Prop := ∀ s, execCharge E ops s ≤ m
+
+theorem cl_app {E : EvalEnv} {a b : List Op} {m1 m2 : Nat} (ha : ChargeLe E a m1)
+    (hb : ChargeLe E b m2) : ChargeLe E (a ++ b) (m1 + m2) := by
+  intro s
+  rw [execCharge_append]
+  have h1 := ha s
+  cases exec E a s with
+  | none => simp only []; omega
+  | some s' => have h2 := hb s'; simp only []; omega
+
+theorem cl_nc {E : EvalEnv} (ops : List Op) (h : hasCms ops = false) : ChargeLe E ops 0 :=
+  fun s => Nat.le_of_eq (execCharge_noCms E ops s h)
+
+theorem cl_mono {E : EvalEnv} {ops : List Op} {m m' : Nat} (h : ChargeLe E ops m) (hm : m ≤ m') :
+    ChargeLe E ops m' := fun s => Nat.le_trans (h s) hm
+
+theorem hasCms_map_push (keys : List Key) : hasCms (keys.map .push) = false := by
+  simp [hasCms, Op.isCms]
+
+theorem hasCms_multiA (keys : List Key) : hasCms (multiAOps keys) = false := by
+  cases keys with
+  | nil => rfl
+  | cons k ks => simp [multiAOps, hasCms, Op.isCms]
+
+/-- `<n> OP_CHECKMULTISIG(VERIFY)` charges at most the `n` it has just pushed. -/
+theorem cl_cms (E : EvalEnv) (n : Nat) (o : Op) (ho : o.isControl = false) :
+    ChargeLe E [.pushnum n, o] n := by
+  intro s
+  obtain ⟨st, al, cs⟩ := s
+  have e : (Op.pushnum n).isCms = false := rfl
+  simp only [execCharge, e, Bool.and_false, Bool.false_eq_true, if_false, Nat.zero_add]
+  by_cases hc : executing cs = true
+  · rw [step_run' E (.pushnum n) st al cs rfl hc]
+    simp only [stepExec, hc, Bool.true_and]
+    have hk : cmsKeys ⟨encodeNum n :: st, al, cs⟩ ≤ n := by
+      simp only [cmsKeys]
+      cases hv : numVal (encodeNum n) with
+      | none => simp
+      | some x =>
+        simp only []
+        unfold numVal at hv
+        split at hv
+        · cases hv
+          unfold encodeNum
+          rw [Btc.Script.decodeNum_encodeNumRaw]
+          simp
+        · cases hv
+    cases step E o ⟨encodeNum n :: st, al, cs⟩ <;> cases o.isCms <;> simp <;> omega
+  · have hc' : executing cs = false := by simpa using hc
+    rw [step_skip' E (.pushnum n) st al cs rfl hc']
+    simp only [hc', Bool.false_and, Bool.false_eq_true, if_false, Nat.zero_add]
+    cases step E o ⟨st, al, cs⟩ <;> simp [execCharge]
+
+mutual
+/-- the keys of every `multi()` of the expression. -/
+def multiKeys : Ms → Nat
+  | .multi _ keys => keys.length
+  | .wrap _ x => multiKeys x
+  | .bin _ x y => multiKeys x + multiKeys y
+  | .andor x y z => multiKeys x + multiKeys y + multiKeys z
+  | .thresh _ x xs => multiKeys x + multiKeysL xs
+  | _ => 0
+def multiKeysL : MsL → Nat
+  | .nil => 0
+  | .cons x xs => multiKeys x + multiKeysL xs
+end
+
+mutual
+/-- STATIC bound on the keys an execution is charged: those of every `multi()` in the script,
+    whatever the initial state (the executed ones are a subset). -/
+theorem charge_le (E : EvalEnv) (ctx : Ctx) (h160 : Bytes → Bytes) :
+    ∀ (n : Ms) (v : Bool), ChargeLe E (opsOf ctx h160 v n) (multiKeys n)
+  | .f0, _ | .f1, _ | .pk_k _, _ | .pk_h _, _ | .older _, _ | .after _, _ =>
+    cl_nc _ (by simp [opsOf, hasCms_cons, hasCms_nil, Op.isCms])
+  | .hash _ _, v => cl_nc _ (by cases v <;> simp [opsOf, hasCms_cons, hasCms_nil, Op.isCms])
+  | .multi k keys, v => by
+    have h1 : ChargeLe E ([.pushnum k] ++ keys.map .push) 0 :=
+      cl_nc _ (by simp [hasCms_append, hasCms_cons, hasCms_nil, hasCms_map_push, Op.isCms])
+    have h2 : ChargeLe E [.pushnum keys.length, if v then .checkmultisigverify else .checkmultisig]
+        keys.length := cl_cms E _ _ (by cases v <;> rfl)
+    have := cl_app h1 h2
+    simp only [opsOf, multiKeys]
+    simpa using this
+  | .multi_a k keys, v =>
+    cl_nc _ (by cases v <;> simp [opsOf, hasCms_append, hasCms_cons, hasCms_nil, hasCms_multiA, Op.isCms])
+  | .wrap w x, v => by
+    have H := fun b => charge_le E ctx h160 x b
+    have one : ∀ o : Op, o.isCms = false → ChargeLe E [o] 0 := fun o h =>
+      cl_nc _ (by simp [hasCms_cons, hasCms_nil, h])
+    simp only [multiKeys]
+    cases w
+    · exact cl_mono (cl_app (cl_app (one .toalt rfl) (H false)) (one .fromalt rfl)) (by omega)
+    · exact cl_mono (cl_app (one .swap rfl) (H v)) (by omega)
+    · exact cl_mono (cl_app (H false) (one _ (by cases v <;> rfl))) (by omega)
+    · exact cl_mono (cl_app (cl_app (cl_nc [.dup, .opif] rfl) (H false)) (one .endif rfl)) (by omega)
+    · simp only [opsOf]
+      split
+      · exact cl_mono (cl_app (H true) (one .verify rfl)) (by omega)
+      · exact cl_mono (cl_app (H true) (cl_nc [] rfl)) (by omega)
+    · exact cl_mono (cl_app (cl_app (cl_nc [.size, .zeronotequal, .opif] rfl) (H false))
+        (one .endif rfl)) (by omega)
+    · exact cl_mono (cl_app (H false) (one .zeronotequal rfl)) (by omega)
+  | .bin b x y, v => by
+    have Hx := fun b => charge_le E ctx h160 x b
+    have Hy := fun b => charge_le E ctx h160 y b
+    have one : ∀ o : Op, o.isCms = false → ChargeLe E [o] 0 := fun o h =>
+      cl_nc _ (by simp [hasCms_cons, hasCms_nil, h])
+    simp only [multiKeys]
+    cases b
+    · exact cl_app (Hx false) (Hy v)
+    · exact cl_mono (cl_app (cl_app (Hx false) (Hy false)) (one .booland rfl)) (by omega)
+    · exact cl_mono (cl_app (cl_app (Hx false) (Hy false)) (one .boolor rfl)) (by omega)
+    · exact cl_mono (cl_app (cl_app (cl_app (Hx false) (one .notif rfl)) (Hy false)) (one .endif rfl))
+        (by omega)
+    · exact cl_mono (cl_app (cl_app (cl_app (Hx false) (cl_nc [.ifdup, .notif] rfl)) (Hy false))
+        (one .endif rfl)) (by omega)
+    · exact cl_mono (cl_app (cl_app (cl_app (cl_app (one .opif rfl) (Hx false)) (one .opelse rfl))
+        (Hy false)) (one .endif rfl)) (by omega)
+  | .andor x y z, _ => by
+    have one : ∀ o : Op, o.isCms = false → ChargeLe E [o] 0 := fun o h =>
+      cl_nc _ (by simp [hasCms_cons, hasCms_nil, h])
+    simp only [multiKeys]
+    exact cl_mono (cl_app (cl_app (cl_app (cl_app (cl_app (charge_le E ctx h160 x false) (one .notif rfl))
+      (charge_le E ctx h160 z false)) (one .opelse rfl)) (charge_le E ctx h160 y false))
+      (one .endif rfl)) (by omega)
+  | .thresh k x xs, v => by
+    simp only [multiKeys, opsOf]
+    exact cl_mono (cl_app (cl_app (charge_le E ctx h160 x false) (charge_leL E ctx h160 xs))
+      (cl_nc _ (by cases v <;> simp [hasCms_cons, hasCms_nil, Op.isCms]))) (by omega)
+theorem charge_leL (E : EvalEnv) (ctx : Ctx) (h160 : Bytes → Bytes) :
+    ∀ (xs : MsL), ChargeLe E (opsRest ctx h160 xs) (multiKeysL xs)
+  | .nil => cl_nc _ rfl
+  | .cons x xs => by
+    simp only [multiKeysL, opsRest]
+    exact cl_mono (cl_app (cl_app (charge_le E ctx h160 x false)
+      (cl_nc [.add] rfl)) (charge_leL E ctx h160 xs)) (by omega)
+end
+
+/-- P2WSH: the op codes above OP_16 of the script plus the keys of EVERY `multi()` in it are within
+    the 201-op limit.  (What `is_within_resource_limits` bounds is the worst EXECUTED path; the two
+    agree unless `multi()`s sit in different branches of an `or_i`/`andor`/`or_c`/`or_d`.) -/
+def opsStaticOK (ctx : Ctx) (n : Ms) : Bool :=
+  ctx == .tapscript || decide ((info ctx n).staticOps + multiKeys n ≤ MAX_OPS_PER_SCRIPT)
+
+theorem engineLimits_of_withinLimits (E : EvalEnv) (ctx : Ctx) (h160 : Bytes → Bytes)
+    (hh : ∀ b, (h160 b).length = 20) (n : Ms) (hshape : shaped ctx n = true)
+    (hlim : withinLimits ctx n = true) (hst : opsStaticOK ctx n = true) (s : List Bytes)
+    (h520 : ∀ e ∈ s, e.length ≤ 520) (h1000 : s.length ≤ MAX_STACK_SIZE) (st : St) :
+    withinEngineLimits ctx (opsOf ctx h160 false n) s (execCharge E (opsOf ctx h160 false n) st) = true := by
   have hw : (s.all fun e => decide (e.length ≤ 520)) = true := by
     rw [List.all_eq_true]; intro e he; simpa using h520 e he
   unfold withinEngineLimits
@@ -67,10 +205,16 @@ theorem engineLimits_of_withinLimits (ctx : Ctx) (h160 : Bytes → Bytes)
   cases ctx with
   | tapscript => simpa using h1000
   | p2wsh =>
-    obtain ⟨o, ho⟩ := Option.isSome_iff_exists.mp hops
-    simp only [withinLimits, ho, Bool.and_eq_true, decide_eq_true_eq] at hlim
-    have h1 : countNP (opsOf .p2wsh h160 false n) ≤ MAX_OPS_PER_SCRIPT := by
-      rw [countNP_opsOf]; exact Nat.le_trans (static_le_maxOps _ n o ho) hlim.2.1
+    simp only [opsStaticOK, Bool.or_eq_true, decide_eq_true_eq] at hst
+    have hst' : (info .p2wsh n).staticOps + multiKeys n ≤ MAX_OPS_PER_SCRIPT := by
+      rcases hst with h | h
+      · cases h
+      · exact h
+    have hch := charge_le E .p2wsh h160 n false st
+    have h1 : countNP (opsOf .p2wsh h160 false n) + execCharge E (opsOf .p2wsh h160 false n) st
+        ≤ MAX_OPS_PER_SCRIPT := by
+      rw [countNP_opsOf]; omega
+    simp only [withinLimits, Bool.and_eq_true] at hlim
     have hv := hlim.1
     simp only [isValid, Bool.and_eq_true, decide_eq_true_eq] at hv
     have h2 : (ser (opsOf .p2wsh h160 false n)).length ≤ 10000 := by
@@ -83,7 +227,7 @@ theorem accepts_of_sat (E : EvalEnv) (hsig0 : ∀ k, E.sigOK k [] = false) (ctx 
     (h160 : Bytes → Bytes) (hH : ∀ k, E.hashF .hash160 k = h160 k)
     (hh : ∀ b, (h160 b).length = 20) (n : Ms) (h : s1Typed ctx n = true)
     (hshape : shaped ctx n = true) (hB : (typeOf ctx n).B = true)
-    (hlim : withinLimits ctx n = true) (hops : (maxOps ctx n).isSome = true)
+    (hlim : withinLimits ctx n = true) (hst : opsStaticOK ctx n = true)
     (s : List Bytes) (hs : Sat E n s) (h520 : ∀ e ∈ s, e.length ≤ 520)
     (h1000 : s.length ≤ MAX_STACK_SIZE) :
     accepts E ctx (opsOf ctx h160 false n) s = true := by
@@ -91,8 +235,7 @@ theorem accepts_of_sat (E : EvalEnv) (hsig0 : ∀ k, E.sigOK k [] = false) (ctx 
   obtain ⟨v, hv, _, hrun⟩ := bs s [] [] [] rfl hs
   simp only [List.append_nil] at hrun
   unfold accepts
-  rw [execCharge_noCms E _ _ (hasCms_opsOf ctx h160 n false (inS1_of_s1Typed ctx n h)),
-    engineLimits_of_withinLimits ctx h160 hh n (inS1_of_s1Typed ctx n h) hshape hlim hops s h520 h1000, hrun]
+  rw [engineLimits_of_withinLimits E ctx h160 hh n hshape hlim hst s h520 h1000, hrun]
   simp [truthy_cast hv]
 
 theorem rejects_of_dsat (E : EvalEnv) (hsig0 : ∀ k, E.sigOK k [] = false) (ctx : Ctx)
